@@ -20,9 +20,9 @@ import (
 type Decision int
 
 const (
-	Write Decision = iota // the batch is written, InsertLogs returns nil
-	Fail                  // nothing is written, InsertLogs returns an error
-	WriteThenDie          // the batch is written, InsertLogs returns an error
+	Write        Decision = iota // the batch is written, InsertLogs returns nil
+	Fail                         // nothing is written, InsertLogs returns an error
+	WriteThenDie                 // the batch is written, InsertLogs returns an error
 )
 
 var ErrInjected = errors.New("verif: injected store failure")
@@ -41,6 +41,8 @@ type Store struct {
 	// OnInsert is called (under the store mutex) after a batch has been written:
 	// all is the whole persisted sequence, the batch is its last n entries.
 	OnInsert func(all []*ledger.ChainedLog, n int)
+	// FailWith, when non-nil, is the error returned by a failing InsertLogs.
+	FailWith error
 	// InsertDelay, when non-nil, is called before a batch is written (latency).
 	InsertDelay func()
 	// ReadDelay, when non-nil, is called before every read (free-running jitter).
@@ -77,7 +79,7 @@ func (s *Store) InsertLogs(ctx context.Context, logs ...*ledger.ChainedLog) erro
 		d = <-a.Decide
 	}
 	if d == Fail {
-		return ErrInjected
+		return s.failure()
 	}
 	if s.InsertDelay != nil {
 		s.InsertDelay()
@@ -89,9 +91,16 @@ func (s *Store) InsertLogs(ctx context.Context, logs ...*ledger.ChainedLog) erro
 	}
 	s.mu.Unlock()
 	if d == WriteThenDie {
-		return ErrInjected
+		return s.failure()
 	}
 	return nil
+}
+
+func (s *Store) failure() error {
+	if s.FailWith != nil {
+		return s.FailWith
+	}
+	return ErrInjected
 }
 
 func txOf(l *ledger.ChainedLog) *ledger.Transaction {
